@@ -2,7 +2,8 @@
    Primitive machines and the derived operators (composed exactly as the code
    pipes them) of Ops/Aggregates.v; for every finite input and termination. *)
 From RxVerif Require Import Base.Prelude Ops.Machine Ops.MachineFacts Ops.ComposeFacts
-  Ops.Elementwise Ops.Aggregates Ops.AggregatesFacts Ops.AggregatesMore.
+  Ops.Elementwise Ops.Aggregates Ops.AggregatesFacts Ops.AggregatesMore
+  Ops.Multi Ops.MultiCase Ops.SeqEqual Ops.SeqEqualFacts.
 
 (* pipelines: what a two-stage pipeline delivers is what stage 2 delivers on
    stage 1's output -- for ARBITRARY input streams *)
@@ -293,4 +294,67 @@ Example C06_witness_reduce :
 Proof. vm_compute. reflexivity. Qed.
 Example C06_witness_single_fails_on_second :
   exec (op_single None) (events [1; 2; 3] TDone) = [(2%nat, Err EXN_MORE_THAN_ONE)].
+Proof. vm_compute. reflexivity. Qed.
+
+(* ---- comparer parameters ---------------------------------------------------------------------- *)
+(* max_by / min_by (extrema_by) under ANY comparer that never raises and orders the keys by some rank
+   (reversed order: rank = negation; order of residues: rank = x mod m; magnitudes other than +-1 are
+   covered since only the sign of the comparer's result is constrained): all elements of extremal rank,
+   in arrival order *)
+Theorem C06_extrema_by_any_comparer : forall A (key : A -> Z) (cmp : Z -> Z -> res Z) (rank : Z -> Z),
+  (forall a b, exists c, cmp a b = Ok c /\ (c >? 0) = (rank a >? rank b) /\ (c >=? 0) = (rank a >=? rank b)) ->
+  forall (xs : list A) t,
+  exists items,
+    untag (exec (op_extrema_by (pure key) cmp) (events xs t))
+    = match t with TDone => [Next items; Done] | TErr e => [Err e] | TNever => [] end
+    /\ match xs with
+       | [] => items = []
+       | _ => exists m, (forall y, In y xs -> rank (key y) <= m)
+                        /\ (exists y, In y xs /\ rank (key y) = m)
+                        /\ items = filter (fun y => rank (key y) =? m) xs
+       end.
+Proof. exact @extrema_spec. Qed.
+Print Assumptions C06_extrema_by_any_comparer.
+
+(* ---- sequence_equal with an OBSERVABLE second argument (two-source machine Ops/SeqEqual.v) ------ *)
+(* for EVERY interleaving of the two sources' notifications: the output is the first answer the two
+   histories give (se_decide), emitted with completion at that very position; an error of either source
+   passes through; nothing after dispose.  The comparer is assumed symmetric: the code hands it the two
+   sides in either order. *)
+Theorem C06_sequence_equal_observable : forall A (eqb : A -> A -> bool), (forall a b, eqb a b = eqb b a) ->
+  forall ins : list (Z * inp A),
+  temitted (fst (run (x_sequence_equal (pure2 eqb)) ins)) = se_spec eqb [] [] true true 1 ins.
+Proof. exact @sequence_equal_refines_spec. Qed.
+Print Assumptions C06_sequence_equal_observable.
+
+(* the answer is true exactly when both sides are complete, equally long and pairwise equal ... *)
+Theorem C06_sequence_equal_true_iff_both : forall A (eqb : A -> A -> bool) (L R : list A) dl dr,
+  se_decide eqb L R dl dr = Some true
+  <-> dl = true /\ dr = true /\ Forall2 (fun a b => eqb a b = true) L R.
+Proof. exact @se_decide_true_iff. Qed.
+Print Assumptions C06_sequence_equal_true_iff_both.
+(* ... and false exactly when some pair present on both sides differs, or a complete side is the shorter one *)
+Theorem C06_sequence_equal_false_iff : forall A (eqb : A -> A -> bool) (L R : list A) dl dr,
+  se_decide eqb L R dl dr = Some false
+  <-> agree eqb L R = false
+      \/ (dl = true /\ (length L < length R)%nat)
+      \/ (dr = true /\ (length R < length L)%nat).
+Proof. exact @se_decide_false_iff. Qed.
+Print Assumptions C06_sequence_equal_false_iff.
+
+(* non-vacuity: second source ahead, mismatch decided when the FIRST source delivers its 2nd element;
+   and an equal pair decided true at the later completion *)
+Example C06_witness_sequence_equal_observable :
+  temitted (fst (run (x_sequence_equal (pure2 Z.eqb))
+                     [(0, ISrc 1%nat (Next 1)); (0, ISrc 1%nat (Next 2)); (0, ISrc 0%nat (Next 1));
+                      (0, ISrc 0%nat (Next 3)); (0, ISrc 0%nat Done)]))
+  = [(4%nat, Next false); (4%nat, Done)]
+  /\ temitted (fst (run (x_sequence_equal (pure2 Z.eqb))
+                        [(0, ISrc 0%nat (Next 1)); (0, ISrc 1%nat (Next 1)); (0, ISrc 1%nat Done);
+                         (0, ISrc 0%nat Done)]))
+     = [(4%nat, Next true); (4%nat, Done)].
+Proof. vm_compute. split; reflexivity. Qed.
+Example C06_witness_min_by_reversed_comparer :
+  untag (exec (op_min_by (pure (fun x : Z => x mod 3)) (pure2 (fun a b => b - a))) (events [1; 5; 3; 2; 8] TDone))
+  = [Next [5; 2; 8]; Done].
 Proof. vm_compute. reflexivity. Qed.
